@@ -1293,3 +1293,62 @@ t('twin-norm-commute', ['C14', 'C09'],
    "        return h * h * 2 * np.dot((fxy - fx)**2 / xy_sqr, self.semi_1_2_weights)"))
 t('twin-outer-commute', ['C09'],
   (EE, "        approx = h_t * np.dot(val, self.gauss.weights)", "        approx = np.dot(self.gauss.weights, val) * h_t"))
+DTIK_OLD = """        if b > d:
+            z = b - d
+            result += FPI_INV * (z * np.exp(-x_sqr / z) +
+                                 (x_sqr + z) * expi(-x_sqr / z))
+        if b > c:
+            z = b - c
+            result -= FPI_INV * (z * np.exp(-x_sqr / z) +
+                                 (x_sqr + z) * expi(-x_sqr / z))
+        if a > c:
+            z = a - c
+            result += FPI_INV * (z * np.exp(-x_sqr / z) +
+                                 (x_sqr + z) * expi(-x_sqr / z))
+        if a > d:
+            z = a - d
+            result -= FPI_INV * (z * np.exp(-x_sqr / z) +
+                                 (x_sqr + z) * expi(-x_sqr / z))
+"""
+CORPUS.append(dict(id='twin-dtik-loop-continue', props=['C01', 'C04', 'C12'],
+                   edits=[(SL, DTIK_OLD, """        for sign, p, q in ((1, b, d), (-1, b, c), (1, a, c), (-1, a, d)):
+            if p <= q:
+                continue
+            z = p - q
+            result += sign * FPI_INV * (z * np.exp(-x_sqr / z) +
+                                        (x_sqr + z) * expi(-x_sqr / z))
+""")], rule=None, expect='silent'))
+m('c04-dtik-loop-break', ['C01', 'C04', 'C12'],
+  (SL, DTIK_OLD, """        for sign, z in ((-1, b - c), (1, a - c), (1, b - d), (-1, a - d)):
+            if z <= 0:
+                break
+            result += sign * FPI_INV * (z * np.exp(-x_sqr / z) +
+                                        (x_sqr + z) * expi(-x_sqr / z))
+"""), rule='R-fourterm')
+ACC_OLD = """        for i, elem in zip(range(N), elems):
+            sobolev[i, 0] += sobolev_time[i][0]
+            for elem_nbr, val_nbr in sobolev_time[i][1]:
+                if elem.glob_idx < elem_nbr:
+                    sobolev[glob_2_loc[elem_nbr], 0] += val_nbr
+            sobolev[i, 1] += sobolev_space[i][0]
+            for elem_nbr, val_nbr in sobolev_space[i][1]:
+                if elem.glob_idx < elem_nbr:
+                    sobolev[glob_2_loc[elem_nbr], 1] += val_nbr
+"""
+CORPUS.append(dict(id='twin-accumulate-folded', props=['C09'], edits=[(EE, ACC_OLD, """        for i in range(N):
+            for ax, (err, ips) in enumerate(
+                (sobolev_time[i], sobolev_space[i])):
+                sobolev[i, ax] += err
+                for elem_nbr, val_nbr in ips:
+                    j = glob_2_loc[elem_nbr]
+                    if elems[i].glob_idx < elem_nbr: sobolev[j, ax] += val_nbr
+""")], rule=None, expect='noalarm'))
+m('c09-accumulate-folded-position', ['C09'],
+  (EE, ACC_OLD, """        for i in range(N):
+            for ax, (err, ips) in enumerate(
+                (sobolev_time[i], sobolev_space[i])):
+                sobolev[i, ax] += err
+                for elem_nbr, val_nbr in ips:
+                    j = glob_2_loc[elem_nbr]
+                    if i < j: sobolev[j, ax] += val_nbr
+"""), rule='R-accumulate')
